@@ -474,6 +474,45 @@ class Inliner:
             return False
         return True
 
+    def inplace_params(self, h, env, kind, target):
+        """Parameters of h that may be worked on in place in the caller's own
+        variable: ``a, pos = h(text, pos)`` where every return of h gives the
+        parameter itself back at the position the caller assigns to the
+        variable it passed (the cursor idiom of scanners).  -> {param: name
+        of the caller's variable}"""
+        if kind != 'assign' or not target or len(target) != 1 or \
+                not isinstance(target[0], (ast.Tuple, ast.List)):
+            return {}
+        tel = target[0].elts
+        rets = [r for r in ast.walk(h) if isinstance(r, ast.Return)]
+        nested = [x for x in ast.walk(h) if isinstance(
+            x, (ast.FunctionDef, ast.Lambda)) and x is not h]
+        if not rets or nested:
+            return {}
+        if not all(isinstance(r.value, ast.Tuple) and len(
+                r.value.elts) == len(tel) for r in rets):
+            return {}
+        res = {}
+        for pn, arg in env.items():
+            if not isinstance(arg, ast.Name):
+                continue
+            for i, t in enumerate(tel):
+                if isinstance(t, ast.Name) and t.id == arg.id and all(
+                        isinstance(r.value.elts[i], ast.Name)
+                        and r.value.elts[i].id == pn for r in rets):
+                    # the caller's variable must not be read by another
+                    # argument or clash with a local of h
+                    others = [a_ for p2, a_ in env.items() if p2 != pn
+                              and not isinstance(a_, list)]
+                    if any(isinstance(y, ast.Name) and y.id == arg.id
+                           for a_ in others for y in ast.walk(a_)):
+                        continue
+                    locs = _assigned_names(h.body) - {pn}
+                    if arg.id in locs:
+                        continue
+                    res[pn] = arg.id
+        return res
+
     # ------------------------------------------------------- statements
     def splice(self, h, call, skip_self, kind, target):
         """Statements replacing `target = h(...)` (kind assign), `return
@@ -542,7 +581,11 @@ class Inliner:
         out = []
         # a parameter the helper rebinds becomes a local initialised with
         # the argument
+        inplace = self.inplace_params(h, env, kind, target)
+        for pn_, cn_ in inplace.items():
+            full[pn_] = cn_
         for pn in [p_ for p_ in env if not isinstance(env[p_], list)
+                   and p_ not in inplace
                    and (p_ in assigned or _needs_local(
                        p_, env[p_], body + ([tail] if tail is not None
                                             else [])))]:
@@ -725,9 +768,40 @@ class Inliner:
         bare = kind == 'expr' and all(
             r.value is None for st_ in body for r in ast.walk(st_)
             if isinstance(r, ast.Return))
+        tuple_t = kind == 'assign' and target and len(
+            target) == 1 and isinstance(target[0], ast.Tuple) and all(
+                isinstance(x, ast.Name) for x in target[0].elts)
         if not bare and (kind != 'assign' or not body or len(
-                target) != 1 or not isinstance(target[0], ast.Name)):
+                target) != 1 or not (isinstance(target[0], ast.Name)
+                                     or tuple_t)):
             return None
+        # ``while True: .. break ..`` followed by the single ``return Y``:
+        # every break of that loop is ``return Y``
+        if len(body) >= 2 and isinstance(body[-1], ast.Return) and \
+                body[-1].value is not None and isinstance(
+                    body[-2], ast.While) and isinstance(
+                        body[-2].test, ast.Constant) and \
+                body[-2].test.value is True and not body[-2].orelse:
+            final = body[-1]
+
+            class B(ast.NodeTransformer):
+
+                def visit_While(self_, n):
+                    return n
+
+                def visit_For(self_, n):
+                    return n
+
+                def visit_FunctionDef(self_, n):
+                    return n
+
+                def visit_Break(self_, n):
+                    return ast.copy_location(
+                        ast.Return(value=clone(final.value)), n)
+
+            lp = body[-2]
+            lp.body = [B().visit(x) for x in lp.body]
+            body = body[:-1]
         outer_ = {n_ for st_ in body for x_ in ast.walk(st_)
                   if isinstance(x_, (ast.Nonlocal, ast.Global))
                   for n_ in x_.names}
@@ -769,20 +843,32 @@ class Inliner:
         self.counter += 1
         suffix = f'__inl{self.counter}'
         assigned = _assigned_names(body) - outer_
-        tname = target[0].id if not bare else None
+        inplace = self.inplace_params(h, env, kind, target) \
+            if tuple_t else {}
+        tname = target[0].id if not bare and not tuple_t else None
         if tname is not None and tname in assigned:
             return None
+        clash = set()
+        if tuple_t:
+            clash = {x.id for x in target[0].elts if x.id in assigned
+                     and x.id not in inplace.values()}
+            if clash & set(env):
+                return None
         ren = {n: n + suffix for n in assigned
-               if n not in env and n in self.caller_names}
+               if n not in env and (n in self.caller_names or n in clash)}
         full = dict(env)
         full.update(ren)
+        for pn_, cn_ in inplace.items():
+            full[pn_] = cn_
         pre = []
         for pn in [p_ for p_ in env if not isinstance(env[p_], list)
+                   and p_ not in inplace
                    and (p_ in assigned or _needs_local(p_, env[p_], body))]:
             pre.append(ast.Assign(
                 targets=[ast.Name(id=pn + suffix, ctx=ast.Store())],
                 value=clone(env[pn])))
             full[pn] = pn + suffix
+        tgt0 = target[0] if not bare else None
 
         class R(ast.NodeTransformer):
 
@@ -794,16 +880,31 @@ class Inliner:
                     return ast.Break()
                 val = n.value if n.value is not None else ast.Constant(
                     value=None)
+                if tuple_t:
+                    # component-wise; a component that is the in-place
+                    # parameter itself needs no assignment
+                    out_ = []
+                    for t_, v_ in zip(tgt0.elts, val.elts):
+                        if isinstance(v_, ast.Name) and inplace.get(
+                                v_.id) == t_.id:
+                            continue
+                        out_.append(ast.Assign(
+                            targets=[ast.Name(id=t_.id, ctx=ast.Store())],
+                            value=v_))
+                    return out_ + [ast.Break()]
                 return [ast.Assign(targets=[ast.Name(id=tname,
                                                      ctx=ast.Store())],
                                    value=val), ast.Break()]
 
-        new = [R().visit(st) for st in body]
+        # first the renaming of the helper's names, then the returns (their
+        # targets are names of the caller)
         sub = _Subst(full)
         res = list(pre)
-        for st in new:
+        for st in body:
             r = sub.visit(st)
-            res.extend(r if isinstance(r, list) else [r])
+            for st2 in (r if isinstance(r, list) else [r]):
+                r2 = R().visit(st2)
+                res.extend(r2 if isinstance(r2, list) else [r2])
         return res
 
     def splice_ifchain(self, h, body, env, skip_self, kind, target):
@@ -829,7 +930,11 @@ class Inliner:
         full = dict(env)
         full.update(ren)
         pre = []
+        inplace = self.inplace_params(h, env, kind, target)
+        for pn_, cn_ in inplace.items():
+            full[pn_] = cn_
         for pn in [p_ for p_ in env if not isinstance(env[p_], list)
+                   and p_ not in inplace
                    and (p_ in assigned or _needs_local(p_, env[p_], body))]:
             pre.append(ast.Assign(
                 targets=[ast.Name(id=pn + suffix, ctx=ast.Store())],
@@ -917,9 +1022,109 @@ class Inliner:
         self.split_tuple_assigns()
         self.fold_constant_fstrings()
         self.forward_result_temps()
+        self.fuse_sentinel_breaks()
         self.fold_literal_tests()
         ast.fix_missing_locations(self.tree)
         return self.tree
+
+    def fuse_sentinel_breaks(self):
+        """``while True: .. X = None; break .. X = <text>; break`` followed by
+        ``if X is None: return``: the sentinel exit is the return itself (what
+        inlining a helper that returned ``None, pos`` for "not found" leaves
+        behind).  The test after the loop is dropped when every other break
+        of the loop is preceded by an assignment of a value that is never
+        None (a ``str.join`` call, a literal)."""
+        def never_none(e):
+            if isinstance(e, (ast.JoinedStr, ast.List, ast.Tuple, ast.Dict)):
+                return True
+            if isinstance(e, ast.Constant):
+                return e.value is not None
+            if isinstance(e, ast.Call) and isinstance(
+                    e.func, ast.Attribute) and e.func.attr == 'join':
+                return True
+            return False
+
+        def own_blocks(loop):
+            """blocks of the loop body that belong to this loop"""
+            out = []
+
+            def rec(stmts):
+                out.append(stmts)
+                for st in stmts:
+                    if isinstance(st, (ast.For, ast.While, ast.FunctionDef,
+                                       ast.ClassDef)):
+                        continue
+                    for fld in ('body', 'orelse', 'finalbody'):
+                        b = getattr(st, fld, None)
+                        if isinstance(b, list) and b and isinstance(
+                                b[0], ast.stmt):
+                            rec(b)
+                    for h_ in getattr(st, 'handlers', []) or []:
+                        rec(h_.body)
+
+            rec(loop.body)
+            return out
+
+        for f in [x for x in ast.walk(self.tree)
+                  if isinstance(x, ast.FunctionDef)]:
+            for holder in ast.walk(f):
+                for fld in ('body', 'orelse'):
+                    blk = getattr(holder, fld, None)
+                    if not (isinstance(blk, list) and blk and isinstance(
+                            blk[0], ast.stmt)):
+                        continue
+                    i = 0
+                    while i + 1 < len(blk):
+                        lp, nxt = blk[i], blk[i + 1]
+                        i += 1
+                        if not (isinstance(lp, ast.While) and isinstance(
+                                lp.test, ast.Constant) and lp.test.value is
+                                True and not lp.orelse and isinstance(
+                                    nxt, ast.If) and not nxt.orelse and len(
+                                        nxt.body) == 1 and isinstance(
+                                            nxt.body[0], ast.Return)):
+                            continue
+                        t = nxt.test
+                        if not (isinstance(t, ast.Compare) and len(
+                                t.ops) == 1 and isinstance(
+                                    t.ops[0], ast.Is) and isinstance(
+                                        t.left, ast.Name) and isinstance(
+                                            t.comparators[0], ast.Constant)
+                                and t.comparators[0].value is None):
+                            continue
+                        x = t.left.id
+                        covered = True
+                        did = False
+                        for b in own_blocks(lp):
+                            j = 0
+                            while j < len(b):
+                                st = b[j]
+                                if isinstance(st, ast.Break):
+                                    prev = b[j - 1] if j > 0 else None
+                                    if isinstance(prev, ast.Assign) and len(
+                                            prev.targets) == 1 and isinstance(
+                                                prev.targets[0], ast.Name) \
+                                            and prev.targets[0].id == x:
+                                        if isinstance(
+                                                prev.value, ast.Constant) \
+                                                and prev.value.value is None:
+                                            b[j - 1:j + 1] = [
+                                                clone(nxt.body[0])]
+                                            did = True
+                                            continue
+                                        if not never_none(prev.value):
+                                            covered = False
+                                    else:
+                                        covered = False
+                                j += 1
+                        if did:
+                            self.notes.append(
+                                f'{f.name}: the exit "{x} = None; break" of '
+                                f'the loop at line {lp.lineno} written as '
+                                'the return it leads to')
+                            if covered:
+                                blk.remove(nxt)
+                                i -= 1
 
     def fold_literal_tests(self):
         """``if True:`` / ``if False:`` / ``x if True else y`` left behind by
@@ -3785,6 +3990,279 @@ def inline_contextmanagers(tree, modname):
     return notes
 
 
+def scalarise_global_records(tree):
+    """A module global that only ever holds a record of a private
+    namedtuple type (``G = _Rec(a, b)`` at module level and under ``global
+    G`` in functions) and is only read as ``G.field`` is the group of
+    globals ``G__field`` it stands for: every assignment becomes one
+    assignment per field (same right-hand sides, same order), every read the
+    corresponding global."""
+    notes = []
+    recs = {}
+    for st in tree.body:
+        if isinstance(st, ast.Assign) and len(st.targets) == 1 and \
+                isinstance(st.targets[0], ast.Name) and isinstance(
+                    st.value, ast.Call) and ast.unparse(st.value.func) in (
+                        'collections.namedtuple', 'namedtuple') and len(
+                            st.value.args) == 2 and isinstance(
+                                st.value.args[1], (ast.List, ast.Tuple)) \
+                and all(isinstance(x, ast.Constant)
+                        for x in st.value.args[1].elts) and \
+                st.targets[0].id.startswith('_') and not any(
+                    k.arg == 'defaults' for k in st.value.keywords):
+            recs[st.targets[0].id] = [x.value
+                                      for x in st.value.args[1].elts]
+    if not recs:
+        return notes
+
+    def ctor_fields(call):
+        """field -> value for a record construction, or None"""
+        if not (isinstance(call, ast.Call) and isinstance(
+                call.func, ast.Name) and call.func.id in recs):
+            return None
+        fs = recs[call.func.id]
+        if any(isinstance(a, ast.Starred) for a in call.args) or any(
+                k.arg is None for k in call.keywords):
+            return None
+        vals = dict(zip(fs, call.args))
+        for k in call.keywords:
+            vals[k.arg] = k.value
+        if set(vals) != set(fs):
+            return None
+        # keep the evaluation order: positional first, then keywords as
+        # written
+        order = fs[:len(call.args)] + [k.arg for k in call.keywords]
+        return [(f_, vals[f_]) for f_ in order]
+
+    cands = {}
+    for st in tree.body:
+        if isinstance(st, ast.Assign) and len(st.targets) == 1 and \
+                isinstance(st.targets[0], ast.Name) and ctor_fields(
+                    st.value) is not None:
+            cands[st.targets[0].id] = st.value.func.id
+    for g, rec in list(cands.items()):
+        ok = True
+        for x in ast.walk(tree):
+            if isinstance(x, ast.Name) and x.id == g:
+                par = getattr(x, '_gparent', None)
+        # every use of the name: a store from a constructor of the same
+        # record, a field read, or a ``global`` declaration
+        parents = {}
+        for n in ast.walk(tree):
+            for c in ast.iter_child_nodes(n):
+                parents[id(c)] = n
+        for x in ast.walk(tree):
+            if not (isinstance(x, ast.Name) and x.id == g):
+                continue
+            par = parents.get(id(x))
+            if isinstance(x.ctx, ast.Store):
+                if not (isinstance(par, ast.Assign) and len(
+                        par.targets) == 1 and par.targets[0] is x and
+                        ctor_fields(par.value) is not None
+                        and par.value.func.id == rec):
+                    ok = False
+            elif isinstance(x.ctx, ast.Load):
+                if not (isinstance(par, ast.Attribute) and par.value is x
+                        and par.attr in recs[rec] and isinstance(
+                            par.ctx, ast.Load)):
+                    ok = False
+            else:
+                ok = False
+        if not ok:
+            continue
+
+        class T(ast.NodeTransformer):
+
+            def visit_Attribute(self_, n):
+                n = self_.generic_visit(n)
+                if isinstance(n.value, ast.Name) and n.value.id == g and \
+                        n.attr in recs[rec]:
+                    return ast.copy_location(
+                        ast.Name(id=f'{g}__{n.attr}', ctx=ast.Load()), n)
+                return n
+
+            def visit_Assign(self_, n):
+                if len(n.targets) == 1 and isinstance(
+                        n.targets[0], ast.Name) and n.targets[0].id == g:
+                    out = []
+                    for (f_, v) in ctor_fields(n.value):
+                        a = ast.Assign(targets=[ast.Name(id=f'{g}__{f_}',
+                                                         ctx=ast.Store())],
+                                       value=self_.visit(v))
+                        out.append(ast.copy_location(a, n))
+                    return out
+                return self_.generic_visit(n)
+
+            def visit_Global(self_, n):
+                names = []
+                for nm in n.names:
+                    if nm == g:
+                        names.extend(f'{g}__{f_}' for f_ in recs[rec])
+                    else:
+                        names.append(nm)
+                n.names = names
+                return n
+
+        T().visit(tree)
+        ast.fix_missing_locations(tree)
+        notes.append(f'module global {g} (a {rec} record) written as the '
+                     f'globals {g}__<field>')
+    return notes
+
+
+def canonical_comprehensions(tree):
+    """Three spellings with one meaning each:
+
+    * ``any(v == E for v in IT)`` (E does not mention v) is ``E in IT``
+      (membership compares the element with E by ``==``, element first,
+      and stops at the first hit - exactly what the generator does);
+      ``any(v.a == E for v in IT)`` is ``E in map(lambda v: v.a, IT)``;
+    * ``name = {K: V for v in IT if C}`` as a statement is the loop that
+      fills an empty dict;
+    * ``name = sum(1 for v in itertools.takewhile(P, IT))`` is the counting
+      loop that stops at the first element failing P.
+    """
+    notes = []
+
+    def mentions(e, names):
+        return any(isinstance(y, ast.Name) and y.id in names
+                   for y in ast.walk(e))
+
+    class A(ast.NodeTransformer):
+
+        def visit_Call(self_, n):
+            n = self_.generic_visit(n)
+            if not (isinstance(n.func, ast.Name) and n.func.id == 'any'
+                    and len(n.args) == 1 and not n.keywords and isinstance(
+                        n.args[0], ast.GeneratorExp)):
+                return n
+            g = n.args[0]
+            if len(g.generators) != 1 or g.generators[0].ifs or \
+                    g.generators[0].is_async or not isinstance(
+                        g.generators[0].target, ast.Name):
+                return n
+            v = g.generators[0].target.id
+            e = g.elt
+            if not (isinstance(e, ast.Compare) and len(e.ops) == 1
+                    and isinstance(e.ops[0], ast.Eq)):
+                return n
+            l, r = e.left, e.comparators[0]
+            if mentions(r, {v}) or not mentions(l, {v}):
+                return n
+            if any(isinstance(y, (ast.Call, ast.NamedExpr, ast.Yield))
+                   for y in ast.walk(r)):
+                return n  # E would be evaluated once instead of per element
+            it = g.generators[0].iter
+            if isinstance(l, ast.Name) and l.id == v:
+                src = it
+            elif isinstance(l, ast.Attribute) and isinstance(
+                    l.value, ast.Name) and l.value.id == v:
+                lam = ast.Lambda(
+                    args=ast.arguments(posonlyargs=[], args=[ast.arg(arg=v)],
+                                       kwonlyargs=[], kw_defaults=[],
+                                       defaults=[]),
+                    body=l)
+                src = ast.Call(func=ast.Name(id='map', ctx=ast.Load()),
+                               args=[lam, it], keywords=[])
+            else:
+                return n
+            notes.append(f'any(.. == ..) at line {n.lineno} written as a '
+                         'membership test')
+            new = ast.Compare(left=r, ops=[ast.In()], comparators=[src])
+            return ast.fix_missing_locations(ast.copy_location(new, n))
+
+    A().visit(tree)
+
+    def lower(blk):
+        i = 0
+        while i < len(blk):
+            st = blk[i]
+            for fld in ('body', 'orelse', 'finalbody'):
+                b = getattr(st, fld, None)
+                if isinstance(b, list) and b and isinstance(b[0], ast.stmt):
+                    lower(b)
+            for h in getattr(st, 'handlers', []) or []:
+                lower(h.body)
+            if isinstance(st, ast.Assign) and len(st.targets) == 1 and \
+                    isinstance(st.targets[0], ast.Name):
+                name = st.targets[0].id
+                v = st.value
+                if isinstance(v, ast.DictComp) and len(
+                        v.generators) == 1 and not v.generators[
+                            0].is_async and not mentions(v, {name}):
+                    g = v.generators[0]
+                    inner = [ast.Assign(
+                        targets=[ast.Subscript(
+                            value=ast.Name(id=name, ctx=ast.Load()),
+                            slice=v.key, ctx=ast.Store())], value=v.value)]
+                    for c in reversed(g.ifs):
+                        inner = [ast.If(test=c, body=inner, orelse=[])]
+                    loop = ast.For(target=g.target, iter=g.iter, body=inner,
+                                   orelse=[])
+                    init = ast.Assign(targets=[st.targets[0]],
+                                      value=ast.Dict(keys=[], values=[]))
+                    for x in (init, loop):
+                        ast.copy_location(x, st)
+                        for y in ast.walk(x):
+                            if not hasattr(y, 'lineno'):
+                                ast.copy_location(y, st)
+                        ast.fix_missing_locations(x)
+                    blk[i:i + 1] = [init, loop]
+                    notes.append(f'dict comprehension at line {st.lineno} '
+                                 'written as a loop')
+                    i += 2
+                    continue
+                if isinstance(v, ast.Call) and isinstance(
+                        v.func, ast.Name) and v.func.id == 'sum' and len(
+                            v.args) == 1 and not v.keywords and isinstance(
+                                v.args[0], ast.GeneratorExp) and len(
+                                    v.args[0].generators) == 1:
+                    ge = v.args[0]
+                    g = ge.generators[0]
+                    if isinstance(ge.elt, ast.Constant) and \
+                            ge.elt.value == 1 and not g.ifs and isinstance(
+                                g.iter, ast.Call) and ast.unparse(
+                                    g.iter.func) in ('itertools.takewhile',
+                                                     'takewhile') and len(
+                                                         g.iter.args) == 2 \
+                            and isinstance(g.target, ast.Name):
+                        pred, it = g.iter.args
+                        tv = g.target.id if g.target.id != '_' else \
+                            f'{name}__e'
+                        test = ast.UnaryOp(op=ast.Not(), operand=ast.Call(
+                            func=pred, args=[ast.Name(id=tv,
+                                                      ctx=ast.Load())],
+                            keywords=[]))
+                        loop = ast.For(
+                            target=ast.Name(id=tv, ctx=ast.Store()), iter=it,
+                            body=[ast.If(test=test, body=[ast.Break()],
+                                         orelse=[]),
+                                  ast.AugAssign(
+                                      target=ast.Name(id=name,
+                                                      ctx=ast.Store()),
+                                      op=ast.Add(),
+                                      value=ast.Constant(value=1))],
+                            orelse=[])
+                        init = ast.Assign(targets=[st.targets[0]],
+                                          value=ast.Constant(value=0))
+                        for x in (init, loop):
+                            ast.copy_location(x, st)
+                            for y in ast.walk(x):
+                                if not hasattr(y, 'lineno'):
+                                    ast.copy_location(y, st)
+                            ast.fix_missing_locations(x)
+                        blk[i:i + 1] = [init, loop]
+                        notes.append(f'sum over takewhile at line '
+                                     f'{st.lineno} written as a loop')
+                        i += 2
+                        continue
+            i += 1
+
+    for f in [x for x in ast.walk(tree) if isinstance(x, ast.FunctionDef)]:
+        lower(f.body)
+    return notes
+
+
 def inline_new_helpers(tree, modname, records=None):
     notes0 = []
     try:
@@ -3800,6 +4278,10 @@ def inline_new_helpers(tree, modname, records=None):
     except RecursionError:
         pass
     try:
+        notes0 += canonical_comprehensions(tree)
+    except RecursionError:
+        pass
+    try:
         notes0 += flatten_records(tree, records or {})
     except RecursionError:
         pass
@@ -3809,6 +4291,10 @@ def inline_new_helpers(tree, modname, records=None):
         pass
     try:
         notes0 += desugar_state_singletons(tree, None)
+    except RecursionError:
+        pass
+    try:
+        notes0 += scalarise_global_records(tree)
     except RecursionError:
         pass
     try:
